@@ -36,6 +36,31 @@ class Gen:
         k = min(k, len(pool))
         return [str(x) for x in self.rng.choice(pool, size=k, replace=False)] if k else []
 
+    def same_size_names(self):
+        """2-3 pool names, at least two of them of equal size"""
+        by_size = {}
+        for n, sz in self.pool.items():
+            by_size.setdefault(sz, []).append(n)
+        pairs = [v for v in by_size.values() if len(v) >= 2]
+        if not pairs:
+            return self.names(2)
+        grp = self.choice(pairs)
+        names = [str(x) for x in self.rng.choice(grp, size=2, replace=False)]
+        if self.rng.random() < 0.4:
+            rest = [n for n in self.pool if n not in names]
+            if rest:
+                names.insert(int(self.rng.integers(0, 3)), self.choice(rest))
+        return names
+
+    def permuted(self, names):
+        names = list(names)
+        if len(names) < 2:
+            return names
+        while True:
+            p = [names[i] for i in self.rng.permutation(len(names))]
+            if p != names:
+                return p
+
     def fresh(self, prefix="z"):
         self.counter += 1
         if not self.fresh_names and prefix not in ("x", "d", "r", "u") and self.rng.random() < 0.8:
@@ -186,7 +211,7 @@ class Gen:
         if depth <= 0 or self.rng.random() < 0.12:
             return self.leaf(shape)
         kinds = ["un", "bin", "bin", "red", "red", "sub", "sub", "stack", "cat", "lam", "getitem", "outred", "reshape", "einsum",
-                 "opstack", "getslice", "slicesub", "indep", "cmp"]
+                 "opstack", "getslice", "slicesub", "indep", "cmp", "lazyred"]
         if self.allow is not None:
             kinds = [k for k in kinds if k in self.allow] or ["bin"]
         kind = self.choice(kinds)
@@ -239,8 +264,14 @@ class Gen:
             sl, sr = shape, ()
         else:
             sl, sr = (), shape
-        l = self.real(depth - 1, sl)
-        r = self.real(depth - 1, sr)
+        if self.rng.random() < 0.08:
+            # two leaf tensors over the same names listed in different orders (equal sizes where possible)
+            names = self.same_size_names()
+            l = self.tensor(sl, names)
+            r = self.tensor(sr, self.permuted(names))
+        else:
+            l = self.real(depth - 1, sl)
+            r = self.real(depth - 1, sr)
         if op == "truediv":
             r = ("un", "exp", (), r)
         return ("bin", op, (), l, r)
@@ -254,6 +285,33 @@ class Gen:
         # the gate always multiplies: numpy adds two boolean arrays as logical-or (recorded finding, probed by C01's catalogue), and
         # normalisation may reassociate a sum so that two gates meet
         return ("bin", "mul", (), gate, self.real(depth - 1, shape))
+
+    def k_lazyred(self, depth, shape):
+        """a reduction whose reduced variable occurs in a lazy operand (a real variable indexed by it), so that the reduction survives
+        eager evaluation as a lazy contraction; then an operation applied on top of it"""
+        if self.ground or shape != ():
+            return None
+        v = self.choice([n for n in self.pool])
+        size = self.pool[v]
+        lazy_part = ("bin", "getitem", (("offset", 0),), ("var", "w%d" % size, ("real", (size,))), ("var", v, (size, ())))
+        if self.nonneg:
+            lazy_part = ("un", "abs", (), lazy_part)
+        names = [n for n in self.names() if n != v]
+        if self.rng.random() < 0.8:
+            names.insert(int(self.rng.integers(0, len(names) + 1)), v)
+        other = self.tensor((), names) if self.rng.random() < 0.7 else self.real(depth - 1, ())
+        body = ("bin", self.choice(self.ops_bin()), (), other, lazy_part)
+        if self.rng.random() < 0.5:
+            body = ("bin", body[1], (), body[4], body[3])
+        red = ("red", self.choice(self.ops_red()), body, ((v, (size, ())),))
+        c = self.rng.random()
+        if c < 0.45:
+            return ("un", self.choice(["neg", "exp", "abs"] if not self.nonneg else ["exp", "abs"]), (), red)
+        if c < 0.8:
+            o = self.real(depth - 1, ())
+            op = self.choice(self.ops_bin())
+            return ("bin", op, (), o, red) if self.rng.random() < 0.5 else ("bin", op, (), red, o)
+        return red
 
     def k_red(self, depth, shape):
         e = self.real(depth - 1, shape)
@@ -321,8 +379,14 @@ class Gen:
         big = shape[:offset] + (size,) + shape[offset:]
         if len(big) > 3:
             return None
-        e = self.real(depth - 1, big)
-        idx = self.integer(depth - 1, size)
+        if self.rng.random() < 0.25:
+            # tensor indexed by a tensor with the same input names in a different order
+            names = self.same_size_names()
+            e = self.tensor(big, names)
+            idx = self.int_tensor(size, self.permuted(names))
+        else:
+            e = self.real(depth - 1, big)
+            idx = self.integer(depth - 1, size)
         if self.ground and idx[0] == "slice":
             idx = ("num", int(self.rng.integers(size)), size)  # Tensor[Slice] has no eager rule and would leave a lazy term
         return ("bin", "getitem", (("offset", offset),), e, idx)
